@@ -47,8 +47,13 @@ def parseCacheOp (t : List String) : Option COp :=
   | ["tick", d] => do some (.tick (← d.toNat?))
   | _ => none
 
+def insertByKey (x : String × Val) : List (String × Val) → List (String × Val)
+  | [] => [x]
+  | y :: ys => if x.1 < y.1 then x :: y :: ys else y :: insertByKey x ys
+
+/-- canonical order: by key (byte-wise, as Go's `sort.Strings` on the keys) -/
 def pairsStr (l : List (String × Val)) : String :=
-  "[" ++ joinWith " " (sortStrings (l.map fun p => p.1 ++ ":" ++ p.2.toStr)) ++ "]"
+  "[" ++ joinWith " " ((l.foldr insertByKey []).map fun p => p.1 ++ ":" ++ p.2.toStr) ++ "]"
 
 def fnStr : FnCall Val → String
   | .f => "f"
